@@ -28,6 +28,16 @@ type Program struct {
 	Judge   func(x *Exec) *Verdict // evaluated after every execution
 	Outcome func() string          // optional: observable outcome, for distinct-outcome counting
 	RaceOK  func(r vsched.RaceInfo) bool // races to ignore (outside the property's anchors); nil = report all
+	// Reach lists outcomes that at least one explored schedule of the program must exhibit
+	// (reachability over the exhaustively explored set; decided only when the exploration completed).
+	Reach []ReachGoal
+}
+
+// ReachGoal is an outcome some schedule must reach.
+type ReachGoal struct {
+	Name   string
+	Clause string
+	Hit    func() bool // evaluated after every execution that passed the per-execution oracle
 }
 
 // Witness is the replay record of a schedule violation.
@@ -35,6 +45,7 @@ type Witness struct {
 	Program string      `json:"program"`
 	Spec    interface{} `json:"spec"`
 	Choices []int       `json:"choices"`
+	Reach   string      `json:"reach,omitempty"` // set for "no schedule reaches <goal>" violations: replay re-explores the program
 }
 
 // Generic verdicts shared by all schedule checks.
@@ -122,12 +133,18 @@ func RunProgram(c *fw.Ctx, p *Program) bool {
 		opt.Deadline = c.Deadline
 	}
 	outcomes := map[string]bool{}
+	reached := make([]bool, len(p.Reach))
 	st, err := Explore(opt, p.Body, func(x *Exec) bool {
 		if p.Outcome != nil && len(outcomes) < 2000 {
 			outcomes[p.Outcome()] = true
 		}
 		v := verdict(p, x)
 		if v == nil {
+			for gi, g := range p.Reach {
+				if !reached[gi] && g.Hit() {
+					reached[gi] = true
+				}
+			}
 			return true
 		}
 		sig := p.Prop + "/" + v.Kind
@@ -166,7 +183,7 @@ func RunProgram(c *fw.Ctx, p *Program) bool {
 		}
 		c.Violate(&fw.Violation{Property: p.Prop, Clause: v.Clause, Signature: sig,
 			Detail:  fmt.Sprintf("program %s %s\nschedule (choice list, %d preemption-bounded) %v\n%s", p.Name, fw.JSON(p.Spec), opt.Bound, x.Choices, v.Detail),
-			Witness: fw.JSON(Witness{p.Name, p.Spec, x.Choices})})
+			Witness: fw.JSON(Witness{Program: p.Name, Spec: p.Spec, Choices: x.Choices})})
 		return true
 	})
 	if err != nil {
@@ -201,7 +218,55 @@ func RunProgram(c *fw.Ctx, p *Program) bool {
 		c.NotExhaustive(fmt.Sprintf("program %s: %s", p.Name, st.CapReason))
 		return false
 	}
+	if opt.NoShard || c.Shards <= 1 {
+		// the whole schedule space of the program was explored by this worker
+		for gi, g := range p.Reach {
+			c.Count("reach_goals_checked", 1)
+			if reached[gi] {
+				continue
+			}
+			sig := p.Prop + "/never-" + g.Name
+			c.Violate(&fw.Violation{Property: p.Prop, Clause: g.Clause, Signature: sig,
+				Detail:  fmt.Sprintf("program %s %s\nnone of the %d explored schedules (bound %d, exploration complete) reaches the outcome %q", p.Name, fw.JSON(p.Spec), st.Execs, opt.Bound, g.Name),
+				Witness: fw.JSON(Witness{Program: p.Name, Spec: p.Spec, Reach: g.Name})})
+		}
+	}
 	return true
+}
+
+// ReplayReach re-explores p (single process) and reports whether goal is still unreachable.
+func ReplayReach(p *Program, goal string) (*fw.Violation, error) {
+	opt := p.Opt
+	opt.Shard, opt.Shards = 0, 1
+	hit, execs := false, 0
+	var g *ReachGoal
+	for i := range p.Reach {
+		if p.Reach[i].Name == goal {
+			g = &p.Reach[i]
+		}
+	}
+	if g == nil {
+		return nil, fmt.Errorf("program %s has no reachability goal %q", p.Name, goal)
+	}
+	st, err := Explore(opt, p.Body, func(x *Exec) bool {
+		execs++
+		if verdict(p, x) == nil && g.Hit() {
+			hit = true
+			return false
+		}
+		return true
+	})
+	if err != nil {
+		return nil, err
+	}
+	if hit {
+		return nil, nil
+	}
+	if st.Capped {
+		return nil, fmt.Errorf("replay exploration capped: %s", st.CapReason)
+	}
+	return &fw.Violation{Property: p.Prop, Clause: g.Clause, Signature: p.Prop + "/never-" + g.Name,
+		Detail: fmt.Sprintf("none of the %d schedules of program %s reaches %q", execs, p.Name, goal)}, nil
 }
 
 // ReplayProgram re-executes a witness on a rebuilt program.
